@@ -18,6 +18,7 @@ plan = {
            {"op": "identity", "sids": [...]}          # the authenticated caller's group memberships from now on
            {"op": "partition", "on": bool},
            {"op": "app_random_seed", "value": n},     # the application calls random.seed(n)
+           {"op": "dc_failover", "host": h}  (the DC goes away, another one with the same keys answers under the name h; DNS follows),
            # fl "thread" + group g: the group's operations are sync calls made by caller threads that share the process, interleaved at
            # line (or opcode) events inside dpapi_ng by simworld.threads (policy: plan["threads"], explicit per group: plan["thread_scripts"])
          ] }
@@ -336,6 +337,23 @@ def execute_plan(plan: dict, kdf_limit: int = 300, keep_events: bool = False) ->
                         world.add_route(offline.DC, dc.gkdi_port, peer)
                     world.stats["dc_restart"] += 1
                     world.log("op.dc_restart", old_port, dc.gkdi_port)
+                    ot.outcome = drive.Outcome("ok", None)
+                    tr.ops.append(ot)
+                    i += 1
+                    continue
+                if kind == "dc_failover":
+                    # the domain controller that served so far goes away (its address refuses connections from now on) and another
+                    # one, holding the same keys, takes over under another name; the SRV lookup names the new one from now on
+                    ot = OpTrace(i, op)
+                    old_host = dc.host
+                    for port in (135, dc.gkdi_port):
+                        peer = world.routes.pop((old_host, port), None)
+                        if peer is not None:
+                            world.add_route(op["host"], port, peer)
+                    dc.host = op["host"]
+                    resolver.target = op["host"]
+                    world.stats["dc_failover"] += 1
+                    world.log("op.dc_failover", old_host, op["host"])
                     ot.outcome = drive.Outcome("ok", None)
                     tr.ops.append(ot)
                     i += 1
